@@ -56,7 +56,18 @@ class Likelihood:
         v = self.t.loglike(x)
         return v + self.shift
 
-    def __call__(self, x):
+    def __call__(self, x, *extra, **kwextra):
+        if extra or kwextra:
+            # a likelihood with extra arguments L(x, mu, s, tag=...) = L0(x - mu) + s + tag (asymmetric in its arguments: called
+            # with the arguments in another order it returns something else or fails)
+            mu, s_ = extra
+            base = Likelihood.__call__(self, np.asarray(x, dtype=float) - np.asarray(mu, dtype=float))
+            add = float(s_) + float(kwextra.get("tag", 0.0))
+            if isinstance(base, tuple):
+                return (base[0] + add,) + tuple(base[1:])
+            if isinstance(base, list):
+                return [v + add for v in base]
+            return base + add
         x = np.asarray(x)
         # the likelihood itself always computes in double precision, whatever dtype the prior transform hands over
         xc = x if x.dtype == np.float64 else x.astype(np.float64)
